@@ -14,6 +14,7 @@ import Sudachi.Model.Rewrite
 import Sudachi.Model.Subset
 import Sudachi.Model.Split
 import Sudachi.Model.Params
+import Sudachi.Model.ParamsCfg
 import Sudachi.Model.LayersIO
 import Sudachi.Model.Codec
 import Sudachi.Model.CodecBuild
@@ -43,7 +44,7 @@ def answer (line : String) : String :=
     | "C14" => Rewrite.handle rest
     | "C11" => Subset.handle op rest
     | "C09" => Split.handle op rest
-    | "C20" => Params.handle op rest
+    | "C20" => Params.handle2 op rest
     | "C12" => Layers.handle op rest
     | "C05" => Codec.handle rest
     | "C04" => Trie.handle op rest
